@@ -23,6 +23,7 @@ import itertools
 
 from mc import exprgen, refsem
 from mc.exprspec import build, to_spec, tup
+from mc.adaptive import amap
 from mc.runner import violation
 
 PROP = "C10"
@@ -119,18 +120,9 @@ def set_cls(bits, w):
     if bits == 0:
         return "empty"
     iv = to_ivs(bits, w)
-    full = (1 << (1 << w)) - 1
-    if bits == full:
-        return "full"
     if len(iv) > 1:
         return "multi"
-    lo, hi = iv[0]
-    if lo == hi:
-        return "single"
-    half = 1 << (w - 1)
-    if lo < half <= hi:
-        return "spans-sign"
-    return "interval"
+    return "single" if iv[0][0] == iv[0][1] else "interval"
 
 
 def fmt(bits, w):
@@ -489,8 +481,32 @@ def handled_only(e):
 
 
 def expr_skeleton(e):
-    from mc.simplattice import skeleton
-    return skeleton(e, 2)
+    """node kind / operator and the classes (int / id / node) of its direct children"""
+    def cl(x):
+        return "int" if x.is_int() else ("id" if x.is_id() else "node")
+    if e.is_op():
+        return "%s(%s)" % (e.op, ",".join(cl(a) for a in e.args))
+    if e.is_slice():
+        return "slice(%s)" % cl(e.arg)
+    if e.is_compose():
+        return "compose(%s)" % ",".join(cl(a) for a in e.args)
+    if e.is_cond():
+        return "cond(%s,%s,%s)" % (cl(e.cond), cl(e.src1), cl(e.src2))
+    if e.is_mem():
+        return "mem"
+    return cl(e)
+
+
+def sub_exprs(e):
+    if e.is_op() or e.is_compose():
+        return list(e.args)
+    if e.is_slice():
+        return [e.arg]
+    if e.is_cond():
+        return [e.cond, e.src1, e.src2]
+    if e.is_mem():
+        return [e.ptr]
+    return []
 
 
 def divisor_always_zero(e, ids, vals):
@@ -531,7 +547,7 @@ def divisor_always_zero(e, ids, vals):
     return False
 
 
-def check_expr(e, stats=None):
+def _judge_expr(e, stats=None):
     from miasm.analysis.expression_range import expr_range
     spec = to_spec(e)
     case = {"k": "expr", "spec": spec}
@@ -574,6 +590,25 @@ def check_expr(e, stats=None):
             return [violation("expr_range:misses-value:%s" % expr_skeleton(e),
                               "expr_range(%s) = %s but the expression evaluates to %d for %s" % (e, R, c, env or "(no identifiers)"), case)]
     return []
+
+
+def check_expr(e, stats=None):
+    """Judge e; a violation is attributed to the smallest sub-expression that violates on its own."""
+    vs = _judge_expr(e, stats)
+    if not vs:
+        return vs
+    cur = e
+    while True:
+        for c in sub_exprs(cur):
+            if _judge_expr(c):
+                cur = c
+                break
+        else:
+            break
+    if cur is not e:
+        vs[0]["sig"] = _judge_expr(cur)[0]["sig"]
+        vs[0]["what"] += "  [smallest failing sub-expression: %s]" % cur
+    return vs
 
 
 class RGen(exprgen.Gen):
@@ -731,7 +766,7 @@ def run(ctx):
         g.depth1(w)
         g.depth1_core(w)
     shards, specs = plan(thorough)
-    res = ctx.pmap(_dispatch, shards)
+    res, how = amap(ctx, _dispatch, shards)
     allv = []
     for r in res:
         allv += r["vs"]
@@ -746,6 +781,7 @@ def run(ctx):
         "distinct_nontrivial": sum(r["nt"] for r in res),
         "samples": [r["sample"] for r in res if r["sample"]][:6],
         "exhaustive": True,
+        "execution": how,
         "bounds": {"subset_width": 3, "subset_pairs": "all 65536" if thorough else "A: all 256 subsets, B: empty or one interval (37)",
                    "interval_widths": [{"width": w, "bounds": ("Q5=%r" % Q5) if b == "q5" else ("refsem.boundary" if b else "all")} for w, b in specs],
                    "binary_ops": [n for n, _, _ in BIN], "set_ops": SET_OPS, "unary": ["neg", "mod k", "size_update"],
